@@ -277,6 +277,19 @@ pub enum BOp {
     /// Insert the `AnimationSelector` (and chain) now - used when the configuration says the
     /// selector is attached to an already existing, possibly already animating entity
     InsertSelector,
+    /// The extra plain entity loses / regains its `Target` component while its animator runs on
+    /// (the animator keeps time and announces state changes; nothing else is disturbed), or has
+    /// its `Animator` replaced by a new one playing `tls[index]` (an `insert` over the old one).
+    ExtraRemoveTarget,
+    ExtraInsertTarget,
+    ExtraReplaceAnimator(usize),
+    /// Remove the `AnimationSelector` component (the chain component stays): whatever animation
+    /// it started keeps running. A later `InsertSelector` attaches a fresh one.
+    RemoveSelector,
+    /// Edit the selector's public `timelines` map at run time: give `key` the timeline
+    /// `tls[index]`, or remove its timeline. Never affects the animation in progress; the next
+    /// change *to* that key picks the edited entry up.
+    EditTimelines { key: Key, tl: Option<usize> },
     /// `Time::pause()` / `Time::unpause()`: while paused the app clock's delta is zero although
     /// wall time passes
     PauseTime(bool),
@@ -432,6 +445,13 @@ pub fn scn_to_json(s: &BScn) -> Json {
                         .set("then_reset", *reset)
                         .set("start_with_component", *start_with),
                     BOp::InsertSelector => Json::obj().set("insert_selector", true),
+                    BOp::RemoveSelector => Json::obj().set("remove_selector", true),
+                    BOp::ExtraRemoveTarget => Json::obj().set("extra_entity_remove_component", true),
+                    BOp::ExtraInsertTarget => Json::obj().set("extra_entity_insert_component", true),
+                    BOp::ExtraReplaceAnimator(tl) => Json::obj().set("extra_entity_replace_animator", *tl),
+                    BOp::EditTimelines { key, tl } => Json::obj()
+                        .set("edit_selector_timelines_key", *key)
+                        .set("timeline", tl.map(Json::from).unwrap_or(Json::Null)),
                     BOp::SpawnExtra => Json::obj().set("spawn_extra_entity", true),
                     BOp::DespawnExtra => Json::obj().set("despawn_extra_entity", true),
                     BOp::RemoveChain => Json::obj().set("remove_chain", true),
@@ -579,6 +599,22 @@ pub fn scn_from_json(j: &Json) -> Result<BScn, String> {
                     ops.push(BOp::Enable(b.as_bool()?));
                 } else if op.get("insert_selector").is_some() {
                     ops.push(BOp::InsertSelector);
+                } else if op.get("remove_selector").is_some() {
+                    ops.push(BOp::RemoveSelector);
+                } else if op.get("extra_entity_remove_component").is_some() {
+                    ops.push(BOp::ExtraRemoveTarget);
+                } else if op.get("extra_entity_insert_component").is_some() {
+                    ops.push(BOp::ExtraInsertTarget);
+                } else if let Some(tl) = op.get("extra_entity_replace_animator") {
+                    ops.push(BOp::ExtraReplaceAnimator(tl.as_i64()? as usize));
+                } else if let Some(k) = op.get("edit_selector_timelines_key") {
+                    ops.push(BOp::EditTimelines {
+                        key: k.as_i64()? as u8,
+                        tl: match op.req("timeline")? {
+                            Json::Null => None,
+                            t => Some(t.as_i64()? as usize),
+                        },
+                    });
                 } else if op.get("spawn_extra_entity").is_some() {
                     ops.push(BOp::SpawnExtra);
                 } else if op.get("despawn_extra_entity").is_some() {
